@@ -110,12 +110,14 @@ def parseAns : List String → Ans
   | _ => .bad
 
 mutual
-/-- does the term contain a loop with zero iterations? -/
+/-- does the term contain a loop that is iterated zero times over a body that does not claim
+(the class of finding C06-loop0-nonclaiming-accepts; the body's flags are the model's, which agree
+with the implementation's by (A))? -/
 partial def hasLoop0 : G → Bool
   | .C g => hasLoop0 g
   | .Kron a b => hasLoop0 a || hasLoop0 b
   | .Composite _ _ ops => opsHasLoop0 ops
-  | .Loop _ iters _ _ body => iters == 0 || opsHasLoop0 body
+  | .Loop _ iters _ _ body => (iters == 0 && !allStabT Gen.conjTable body) || opsHasLoop0 body
   | _ => false
 partial def opsHasLoop0 : OpList Float → Bool
   | .nil => false
